@@ -174,6 +174,9 @@ func (fr *Frame) enterLoop(li *loopInfo, preds []*ssa.BasicBlock) {
 	for _, phi := range li.phis {
 		incoming[phi] = fr.mergePhi(phi, preds)
 	}
+	// written locations (also needed to resolve \k of map iterators)
+	wcells0, wheap0, all0 := fr.writtenInLoop(li)
+	li.wcells, li.wheap = wcells0, wheap0
 	// established
 	envIn := fr.loopEnv(li, incoming, nil)
 	if li.spec != nil {
@@ -209,7 +212,7 @@ func (fr *Frame) enterLoop(li *loopInfo, preds []*ssa.BasicBlock) {
 		fr.oblige(fmt.Sprintf("loop%d", li.ordinal), "established/auto-no-error-swallowed-so-far", []string{"C11"}, Not(es), h.Instrs[0].Pos())
 	}
 	// havoc
-	wcells, wheap, all := fr.writtenInLoop(li)
+	wcells, wheap, all := wcells0, wheap0, all0
 	if all {
 		ex.unsupp("loop %d of %s: cannot bound the set of written locations", li.ordinal, fr.fn.Name())
 		for c := range ex.st.cells {
